@@ -228,6 +228,29 @@ func (ex *Exec) invoke(fr *Frame, ins ssa.Instruction, cc *ssa.CallCommon, recv 
 		}
 	}
 	it := cc.Value.Type()
+	if named, ok := it.(*types.Named); ok && named.Obj().Pkg() != nil && named.Obj().Pkg().Path() == "sync" && named.Obj().Name() == "Locker" {
+		// a Locker stored in the receiver (cond.L): the lock spec that declares `option via` for the receiver's type
+		if len(fr.fn.Params) > 0 {
+			if pt, isPtr := under(fr.fn.Params[0].Type()).(*types.Pointer); isPtr {
+				for _, ls := range ex.lockSpecs() {
+					if ls.via != "" && ls.typ == typeKey(pt.Elem()) {
+						obj := fr.regs[fr.fn.Params[0]]
+						key := ex.lockKey(obj) + "." + ls.field
+						switch cc.Method.Name() {
+						case "Lock":
+							ex.st.locks[key] = &lockHeld{obj: obj, ls: ls}
+							ex.lockAcquired(fr, ins, ls, obj)
+							return nil
+						case "Unlock":
+							ex.lockReleased(fr, ins, ls, obj)
+							delete(ex.st.locks, key)
+							return nil
+						}
+					}
+				}
+			}
+		}
+	}
 	if named, ok := it.(*types.Named); ok && named.Obj().Pkg() != nil {
 		key := fkey(named.Obj().Pkg().Path(), "iface "+named.Obj().Name()+"."+cc.Method.Name())
 		if c := ex.prog.Types[key]; c != nil {
@@ -330,6 +353,16 @@ func (ex *Exec) calleeEnv(c *Contract, fn *ssa.Function, sig *types.Signature, a
 
 func (ex *Exec) applyContractSig(fr *Frame, ins ssa.Instruction, c *Contract, fn *ssa.Function, sig *types.Signature, args []Val, free []Val, cname string) Val {
 	env := ex.calleeEnv(c, fn, sig, args, free)
+	// obligations the caller's own contract attaches to calls of this callee
+	if ex.contract != nil && fr.fn == ex.root {
+		for i, cs := range ex.contract.CallSites[cname] {
+			cenv := ex.envFor(fr, nil)
+			for j, a := range args {
+				cenv.vars[fmt.Sprintf("$%d", j)] = a
+			}
+			ex.oblige("callsite", ex.siteOf(ins, fmt.Sprintf("%s:%03d", cname, i)), ins.Pos(), "at every call of "+cname+": "+cs.Text, ex.evalBool(cs.E, cenv))
+		}
+	}
 	for i, rq := range c.Requires {
 		ex.oblige("pre", ex.siteOf(ins, fmt.Sprintf("%s:%03d", cname, i)), ins.Pos(), "precondition of "+cname+": "+rq.Text, ex.evalBool(rq.E, env))
 	}
@@ -342,6 +375,10 @@ func (ex *Exec) applyContractSig(fr *Frame, ins ssa.Instruction, c *Contract, fn
 		}
 	}
 	old := ex.st.snapshot()
+	if _, nf := c.Options["noframe"]; nf && len(c.Modifies) == 0 && !c.Pure {
+		// the callee's frame is not checked and none is declared: it may modify anything
+		ex.havocAllHeap(cname)
+	}
 	for _, m := range c.Modifies {
 		ex.havocTarget(m.E, env, cname)
 	}
@@ -401,6 +438,23 @@ func (ex *Exec) pureApp(c *Contract, cname string, args []Val, sig *types.Signat
 				}
 			} else {
 				t = sig.Params().At(i).Type()
+			}
+			// a pure function with a pointer-to-struct parameter is abstracted over the pointee's value
+			// (or, when the contract has a reads clause, over exactly the listed locations)
+			if pt, isPtr := under(t).(*types.Pointer); isPtr {
+				if _, isStruct := under(pt.Elem()).(*types.Struct); isStruct && len(c.Reads) > 0 {
+					continue
+				}
+				if _, isStruct := under(pt.Elem()).(*types.Struct); isStruct {
+					switch av := a.(type) {
+					case StructV:
+						ex.flatten(av, pt.Elem(), &flat)
+						continue
+					case RefPtr, ElemPtr, FieldPtr, CellPtr:
+						ex.flatten(ex.load(a), pt.Elem(), &flat)
+						continue
+					}
+				}
 			}
 			ex.flatten(a, t, &flat)
 		}
@@ -496,6 +550,28 @@ func (ex *Exec) modTargets(e *Expr, env *Env) []modTarget {
 	}
 	if e.K == EIdent && e.Name == "nothing" {
 		return nil
+	}
+	if e.K == ECall && e.Args[0].K == EIdent && e.Args[0].Name == "region" && len(e.Args) == 2 && e.Args[1].K == ESel && e.Args[1].Args[0].K == EIdent {
+		// region(T.f): field f (and its sub-fields) of every object of struct type T of the contract's package
+		tn, fn := e.Args[1].Args[0].Name, e.Args[1].Name
+		pkgName := ""
+		if env.pkg != nil {
+			pkgName = env.pkg.Name()
+		}
+		prefix := "F|" + pkgName + "." + tn + "." + fn
+		var out []modTarget
+		names := make([]string, 0)
+		for n := range ex.regionSorts {
+			if n == prefix || strings.HasPrefix(n, prefix+".") {
+				names = append(names, n)
+			}
+		}
+		sort.Strings(names)
+		for _, n := range names {
+			out = append(out, modTarget{region: n, whole: true})
+		}
+		ex.wildRegions[prefix] = true
+		return out
 	}
 	if e.K == ECall && e.Args[0].K == EIdent && e.Args[0].Name == "region" && len(e.Args) == 2 && e.Args[1].K == EIdent {
 		// every object's ghost field of that name
@@ -665,6 +741,11 @@ func (ex *Exec) frameObligations(kind, site string, pos token.Pos, since *Snapsh
 				wholeRegion = true
 			}
 		}
+		for p := range ex.wildRegions {
+			if n == p || strings.HasPrefix(n, p+".") {
+				wholeRegion = true
+			}
+		}
 		if wholeRegion {
 			continue
 		}
@@ -730,7 +811,8 @@ func (ex *Exec) checkPost(fr *Frame, rv []Val, ins *ssa.Return) {
 		name := fmt.Sprintf("%03d", i)
 		// postconditions are judged independently of each other (no assume after assert)
 		n := len(ex.st.pc)
-		ex.oblige("post", name, ins.Pos(), "postcondition: "+en.Text, ex.evalBool(en.E, env))
+		// a local variable the clause mentions but that does not exist on this return path makes the clause false here
+		ex.oblige("post", name, ins.Pos(), "postcondition: "+en.Text, ex.softBool(en.E, env))
 		if ex.dry == nil && len(ex.st.pc) > n {
 			ex.st.pc = ex.st.pc[:len(ex.st.pc)-1]
 		}
